@@ -262,7 +262,7 @@ def run_schedule(make, prefix, files, opcodes):
     return s, ctx
 
 
-def explore(make, files, bound, opcodes=False, check=None, max_runs=None):
+def explore(make, files, bound, opcodes=False, check=None, max_runs=None, max_seconds=None):
     """Run every schedule with at most `bound` preemptions.
 
     make()  -> (list of thread bodies, context)      fresh shared objects for every execution
@@ -295,8 +295,9 @@ def explore(make, files, bound, opcodes=False, check=None, max_runs=None):
         raise ReplayDivergence("default schedule is not reproducible: %r vs %r / %d vs %d points" % (o1, o2, len(s1.points), len(s2.points)))
     stack = [[]]
     seen_viol = set()
+    t_end = None if max_seconds is None else time.process_time() + max_seconds
     while stack:
-        if max_runs is not None and runs >= max_runs:
+        if (max_runs is not None and runs >= max_runs) or (t_end is not None and time.process_time() > t_end):
             capped = True
             break
         prefix = stack.pop()
